@@ -107,7 +107,10 @@ def main(argv):
     pf = C.check_property_file(pid) if ok_build else {
         "theorems": [], "obligations": len(prop.theorems), "discharged": 0, "ok": False,
         "log": build_log[-3000:], "axioms": []}
-    proof_ok = ok_build and pf["ok"] and not bad_words and pf["obligations"] >= 1
+    missing_thms = [t for t in prop.theorems if t not in pf["theorems"]] if ok_build else []
+    proof_ok = ok_build and pf["ok"] and not bad_words and pf["obligations"] >= 1 and not missing_thms
+    if missing_thms:
+        notes.append("theorems required by the check but absent from Properties/%s.v: %s" % (pid, ", ".join(missing_thms)))
     if bad_words:
         notes.append("forbidden words: " + "; ".join(bad_words))
     print(f"[{pid}] proofs: build={'ok' if ok_build else 'FAILED'} theorems={pf['obligations']} "
